@@ -233,6 +233,26 @@ CLAIMED = {
         technique="TLA+ protocol state machine; state-graph edge tours replayed on the real library under sanitizers; TLC "
                   "trace validation of return classes and of a probe result",
         design="4/C09"),
+    "C02": dict(
+        text="ViterbiNet.tla defines the decoding network declaratively - for every word arc of the search's grammar the chain "
+             "of 3-state HMMs with the left/right-context models taken from the dict2pid / model-definition tables, context-"
+             "independent fillers, one-phone words, one-step null propagation over the closed grammar, insertion penalties and "
+             "arc log-probabilities - and the exact max-plus recursion over it; none of the lextree, active lists or history "
+             "pruning is in it. TLC runs the recursion on a synthetic network for every frame-cost assignment (bounds, "
+             "achievability, zero-cost optimum) and, per recorded decode, over the real network tables and the senone scores "
+             "the scorer produced for every frame (linker wrap of acmod_score): with beams opened the decoder's reported path "
+             "score must EQUAL the optimum (and a path is found iff one exists), with default/narrow beams it must not exceed it. "
+             "Grammar shapes: branching into and out of states with differing neighbouring phones, one-/two-/three-phone words, "
+             "fillers, null chains, loops, alternates, weights, random JSGF and FSG; audio excerpts of 6-120 frames (thorough: "
+             "also the full 278-frame recording).",
+        note="The (phone, left, right, position) -> senone-sequence lookup is taken from the implementation's tables; how "
+             "the models are wired into the search is what is checked. Decoder conventions are stated in the module (one-phone "
+             "words take silence as right context; the last word may use any right context possible at its exit state). With "
+             "pruning, a result that does not reach the last frame is not compared. Trusted: TLC, recorder. One genuine defect "
+             "found and repaired (fix: 45754d6 lextree roots); reverting it is detected.",
+        technique="explicit TLA+ specification of the Viterbi optimum evaluated by TLC on recorded networks and frame scores "
+                  "(trace validation against an exact oracle); TLC model checking of the recursion on a synthetic network",
+        design="4/C02"),
 }
 
 PENDING = "not built yet in this round (planned, see DESIGN.md section 4); no check is registered, so nothing is claimed"
